@@ -505,6 +505,39 @@ def r_sortkey(f):
         else:
             ok = len(src) == 1 and src[0] == (1, 2)
             what = "self.col(col)"
+            if not src:
+                # the same cells gathered row by row: self.rows().map(|r| &r[col]) with `col` captured from the method's own index
+                rows_ok, idx_ok = False, False
+                for hb, pm in reached:
+                    hd = Dfx(hb)
+                    for _, t, fn in hb.calls():
+                        if fn and fn["name"] == "rows" and (fn.get("trait") or "").endswith("TooDeeOps") and origin(hd, pm, t["args"][0]) == 1:
+                            rows_ok = True
+                    # closures created here: captured field i <- origin
+                    for _, _, st in hb.stmts():
+                        if st["k"] == "assign" and st["rv"]["k"] == "agg" and st["rv"].get("agg") == "closure":
+                            caps = [origin(hd, pm, o) for o in st["rv"]["fields"]]
+                            cb_ = f.by_id.get(st["rv"].get("def"))
+                            if cb_ is None:
+                                continue
+                            cd = Dfx(cb_)
+                            for _, t2, fn2 in cb_.calls():
+                                if fn2 and fn2["path"] in ("core::ops::Index::index",) and "usize" in " ".join(fn2.get("args", [])):
+                                    e = strip(cd.expr(t2["args"][1]))
+                                    while e[0] in ("ref", "refmut", "deref"):
+                                        e = strip(e[1])
+                                    if e[0] == "field" and strip(e[1]) in (("param", 1), ("deref", ("param", 1))) and e[2] < len(caps) and caps[e[2]] == 2:
+                                        idx_ok = True
+                            # bounds-checked slice indexing `r[col]` may also be an inline BoundsCheck: index operand a captured field
+                            for bl in cb_.blocks:
+                                tt = bl["term"]
+                                if tt and tt["k"] == "assert" and tt.get("kind") == "BoundsCheck":
+                                    for x in walk(cd.expr(tt["cond"])) if tt.get("cond") else []:
+                                        if x[0] == "field" and strip(x[1]) in (("param", 1), ("deref", ("param", 1))) and x[2] < len(caps) and caps[x[2]] == 2:
+                                            idx_ok = True
+                ok = rows_ok and idx_ok
+                if ok:
+                    what = "self.rows().map(|r| &r[col])"
         R.inst(b.ident, "s3 the key line is %s of the given index" % what, ok)
         if not ok:
             R.fail(b.ident, "s3", "%s does not read its key line as %s with its own index parameter" % (b.ident, what), b.where())
